@@ -113,9 +113,11 @@ def run_flow(c):
                 h2, ld2 = layer.inverse(y)
                 ex = float((h2 - h).abs().max())
                 el = float((ld + ld2).abs().max())
-                scale = 1.0 + float(h.abs().max())
-                out["layers"].append({"layer": type(layer).__name__, "err_x": ex, "err_ld": el,
-                                      "ok": bool(ex <= tol_x * scale and el <= tol_lp * (1.0 + float(ld.abs().max())))})
+                # conditioning: a layer that stretches by exp(|logabsdet| / dims) amplifies rounding errors by as much
+                kl = math.exp(min(20.0, float(ld.abs().max()) / c["dims"]))
+                scale = (1.0 + float(h.abs().max()) + float(y.abs().max())) * kl
+                out["layers"].append({"layer": type(layer).__name__, "err_x": ex, "err_ld": el, "stretch": kl,
+                                      "ok": bool(ex <= tol_x * scale and el <= tol_lp * kl * (1.0 + float(ld.abs().max())))})
             except Exception as e:
                 out["layers"].append({"layer": type(layer).__name__, "ok": False, "error": err(e)})
             h = y
@@ -150,7 +152,10 @@ def run_flow(c):
             out["glue"].append(["KSample", P, fx(blp[j]), fx(ldi[j]), fx(lps[j]), "NFlow.sample_and_log_prob"])
         xi, ldi2 = model.inverse(zs)
         direct("NFlow.inverse = transform.inverse", torch.equal(xi, xs_c) and torch.equal(ldi2, ldi), "")
-        # direct predicates on the implementation alone
+        # direct predicates on the implementation alone; tolerance = float-type tolerance x conditioning of the map
+        kappa = math.exp(min(20.0, float(max(ld.abs().max(), ldi.abs().max())) / c["dims"]))
+        tol_x, tol_lp = tol_x * kappa, tol_lp * kappa
+        out["kappa"] = kappa
         zr, _ = model.forward(xs)
         e_rt = float((zr - zs).abs().max())
         direct("inverse-then-forward round trip", e_rt <= tol_x * (1 + float(zs.abs().max())), f"max |z - fwd(inv(z))| = {e_rt:.3g}")
@@ -373,6 +378,9 @@ def run_ins(c):
     for j in range(len(samples)):
         out["glue"].append(["KInsRow", "F64", fx(lp_last[j]), fx(lj[j]), fx(upd[j, -1]), "ImportanceFlowProposal.update_log_q"])
     direct("update_log_q keeps the existing columns", np.array_equal(upd[:, :-1], lq3[:, :-1]), "")
+    eu = float(np.abs(upd[:, -1] - lq3[:, -1]).max())
+    direct("update_log_q and compute_log_Q attach the same density (flow density times rescaling Jacobian) to the same points",
+           eu <= 1e-9 * (1 + float(np.abs(lq3[:, -1]).max())), f"max difference {eu:.3g}; max |log_j| {float(np.abs(lj).max()):.3g}")
     # rescaling round trip (the certified-map hypothesis of C08_ins_consistent, validated numerically)
     xb, ljb = p.inverse_rescale(xpr.copy())
     er = max(float(np.abs(xb[nm] - samples[nm]).max()) for nm in model.names)
